@@ -51,6 +51,7 @@ type LoadOpts struct {
 	Fixture  string
 	Patterns []string
 	Tags     string
+	Verif    string // verification directory (symbols.json); "" = take names as they are
 }
 
 func baseEnv() []string {
@@ -130,6 +131,9 @@ func Load(o LoadOpts) (*Prog, error) {
 	}
 	if p.SPkg != nil {
 		p.collectFuncs()
+		if o.Verif != "" {
+			p.applySymbolAliases(o.Verif)
+		}
 	}
 	return p, nil
 }
@@ -225,11 +229,16 @@ func FuncName(fn *ssa.Function) string {
 	if fn == nil {
 		return "<nil>"
 	}
+	if len(funcAlias) > 0 {
+		if a, ok := funcAlias[fn]; ok {
+			return a // a renamed function: known to the rules under its recorded name (symbols.go)
+		}
+	}
 	if fn.Parent() != nil {
 		return FuncName(fn.Parent()) + "$" + strings.TrimPrefix(fn.Name(), fn.Parent().Name()+"$")
 	}
 	if recv := fn.Signature.Recv(); recv != nil {
-		return "(" + types.TypeString(recv.Type(), func(*types.Package) string { return "" }) + ")." + fn.Name()
+		return "(" + aliasTypesIn(types.TypeString(recv.Type(), func(*types.Package) string { return "" })) + ")." + fn.Name()
 	}
 	return fn.Name()
 }
@@ -239,7 +248,23 @@ func (p *Prog) Func(name string) *ssa.Function {
 	if p.SPkg == nil {
 		return nil
 	}
-	return p.SPkg.Func(name)
+	if f := p.SPkg.Func(name); f != nil {
+		return f
+	}
+	return p.aliased(name)
+}
+
+// aliased: the function of this program that stands for the recorded name (nil if none).
+func (p *Prog) aliased(recorded string) *ssa.Function {
+	if len(funcAlias) == 0 {
+		return nil
+	}
+	for _, fn := range p.Funcs {
+		if a, ok := funcAlias[fn]; ok && a == recorded {
+			return fn
+		}
+	}
+	return nil
 }
 
 // Method looks up method m of named type T (pointer or value receiver) in the main package.
@@ -247,7 +272,7 @@ func (p *Prog) Method(typ, m string) *ssa.Function {
 	if p.Main == nil {
 		return nil
 	}
-	obj := p.Main.Types.Scope().Lookup(typ)
+	obj := p.lookupType(typ)
 	if obj == nil {
 		return nil
 	}
@@ -273,6 +298,12 @@ func (p *Prog) Method(typ, m string) *ssa.Function {
 			return fn
 		}
 	}
+	// a renamed method: known under its recorded name (symbols.go)
+	for _, recv := range []string{"(*" + typ + ")", "(" + typ + ")"} {
+		if f := p.aliased(recv + "." + m); f != nil {
+			return f
+		}
+	}
 	return nil
 }
 
@@ -281,12 +312,25 @@ func (p *Prog) Named(name string) *types.Named {
 	if p.Main == nil {
 		return nil
 	}
-	obj := p.Main.Types.Scope().Lookup(name)
+	obj := p.lookupType(name)
 	if obj == nil {
 		return nil
 	}
 	n, _ := obj.Type().(*types.Named)
 	return n
+}
+
+// lookupType finds a package-level name; a renamed type is found under its recorded name (symbols.go).
+func (p *Prog) lookupType(name string) types.Object {
+	if obj := p.Main.Types.Scope().Lookup(name); obj != nil {
+		return obj
+	}
+	for from, to := range typeAlias {
+		if to == name {
+			return p.Main.Types.Scope().Lookup(from)
+		}
+	}
+	return nil
 }
 
 func (p *Prog) Global(name string) *ssa.Global {
@@ -346,10 +390,14 @@ func namedOf(t types.Type) *types.Named {
 }
 
 func typeStr(t types.Type) string {
-	return types.TypeString(t, func(p *types.Package) string {
+	s := types.TypeString(t, func(p *types.Package) string {
 		if p.Path() == modPath {
 			return ""
 		}
 		return p.Name()
 	})
+	if len(typeAlias) > 0 {
+		s = aliasTypesIn(s) // a renamed struct type: known to the rules under its recorded name (symbols.go)
+	}
+	return s
 }
